@@ -33,7 +33,7 @@ ASSUMPTIONS = [
     'str key it may set / delete; it is never part of an initial cache',
 ]
 NSH = 16
-NCASE = {'quick': 48_000, 'thorough': 300_000}
+NCASE = {'quick': 48_000, 'thorough': 1_500_000}
 O = isa.op
 
 PROTECTED = ['sigfield1', 'sigfield2', 'sigfield8', 'timestamp', 'extra',
